@@ -480,6 +480,19 @@ impl<'s> ProguardMapper<'s> {
 
     /// Remaps a complete Java StackTrace.
     pub fn remap_stacktrace_typed<'a>(&'a self, trace: &StackTrace<'a>) -> StackTrace<'a> {
+        // one level at a time, in a loop: recursing into the cause would overflow the stack on
+        // (untrusted) traces with very deep cause chains
+        let mut levels = Vec::new();
+        let mut current = Some(trace);
+        while let Some(trace) = current {
+            levels.push(self.remap_stacktrace_level(trace));
+            current = trace.cause.as_deref();
+        }
+        StackTrace::from_levels(levels)
+    }
+
+    /// Remaps the exception and the frames of one level of a StackTrace; the cause is left empty.
+    fn remap_stacktrace_level<'a>(&'a self, trace: &StackTrace<'a>) -> StackTrace<'a> {
         let exception = trace
             .exception
             .as_ref()
@@ -500,15 +513,10 @@ impl<'s> ProguardMapper<'s> {
                     frames
                 });
 
-        let cause = trace
-            .cause
-            .as_ref()
-            .map(|c| Box::new(self.remap_stacktrace_typed(c)));
-
         StackTrace {
             exception,
             frames,
-            cause,
+            cause: None,
         }
     }
 }
